@@ -339,6 +339,80 @@ theorem closedFor_elim {b : String} (h : closedFor b = true) :
     · cases h
   · cases h
 
+/-! ### keyword order is irrelevant to binding -/
+
+theorem keysNodup_iff {β : Type} (kw : List (String × β)) : keysNodup kw = true ↔ (kw.map (·.1)).Nodup := by
+  induction kw with
+  | nil => simp [keysNodup]
+  | cons kv r ih =>
+    simp only [keysNodup, Bool.and_eq_true, Bool.not_eq_true', ih, List.map_cons, List.nodup_cons, List.mem_map, not_exists, not_and]
+    constructor
+    · rintro ⟨h1, h2⟩
+      refine ⟨?_, h2⟩
+      intro x hx heq
+      simp only [hasKey, List.any_eq_false, beq_iff_eq] at h1
+      exact h1 x hx heq
+    · rintro ⟨h1, h2⟩
+      refine ⟨?_, h2⟩
+      simp only [hasKey, List.any_eq_false, beq_iff_eq]
+      intro x hx heq
+      exact h1 x hx heq
+
+theorem hasKey_perm {β : Type} (k : String) {kw kw' : List (String × β)} (h : kw.Perm kw') : hasKey k kw = hasKey k kw' := by
+  simp only [hasKey]
+  exact h.any_eq
+
+theorem lookup_perm {β : Type} (k : String) {kw kw' : List (String × β)} (h : kw.Perm kw')
+    (hn : (kw.map (·.1)).Nodup) : kw.lookup k = kw'.lookup k := by
+  induction h with
+  | nil => rfl
+  | cons x _ ih =>
+    rcases x with ⟨a, b⟩
+    simp only [List.map_cons, List.nodup_cons] at hn
+    simp only [List.lookup_cons]
+    split
+    · rfl
+    · exact ih hn.2
+  | swap x y l =>
+    rcases x with ⟨a, b⟩; rcases y with ⟨c, d⟩
+    simp only [List.map_cons, List.nodup_cons, List.mem_cons, not_or] at hn
+    simp only [List.lookup_cons]
+    by_cases h1 : k == c <;> by_cases h2 : k == a <;> simp [h1, h2]
+    simp only [beq_iff_eq] at h1 h2
+    exact absurd (h1.symm.trans h2) hn.1.1
+  | trans h1 _ ih1 ih2 =>
+    rw [ih1 hn, ih2 ((h1.map _).nodup_iff.mp hn)]
+
+/-- Keyword order does not matter to acceptance. -/
+theorem accepts_kw_perm (sig : Signature) (pos : List (Val α)) {kw kw' : List (String × Val α)} (h : kw.Perm kw') :
+    accepts sig ⟨pos, kw⟩ = accepts sig ⟨pos, kw'⟩ := by
+  have h1 : keysNodup kw = keysNodup kw' := by
+    rw [Bool.eq_iff_iff, keysNodup_iff, keysNodup_iff]
+    exact (h.map _).nodup_iff
+  have h2 : kw.all (fun kv => kwAdmissible sig pos.length kv.1) = kw'.all (fun kv => kwAdmissible sig pos.length kv.1) := h.all_eq
+  have h3 : sig.all (satisfied sig ⟨pos, kw⟩) = sig.all (satisfied sig ⟨pos, kw'⟩) := by
+    congr 1
+    funext p
+    simp only [satisfied, filled, hasKey_perm p.name h]
+  simp only [accepts, h1, h2, h3]
+
+/-- Without `**kwargs`, keyword order does not matter to what the parameters are bound to. -/
+theorem envOf_kw_perm (sig : Signature) (hv : hasVarKw sig = false) (pos : List (Val α)) {kw kw' : List (String × Val α)}
+    (h : kw.Perm kw') (hn : keysNodup kw = true) : envOf sig ⟨pos, kw⟩ = envOf sig ⟨pos, kw'⟩ := by
+  have hn' := (keysNodup_iff kw).mp hn
+  simp only [envOf]
+  apply List.map_congr_left
+  intro p hp
+  congr 1
+  have hk : p.kind ≠ .varKw := by
+    intro hk
+    have : hasVarKw sig = true := by
+      simp only [hasVarKw, List.any_eq_true]
+      exact ⟨p, hp, by simp [hk]⟩
+    rw [hv] at this; cases this
+  unfold boundOf
+  cases hkind : p.kind <;> simp_all [lookup_perm p.name h hn']
+
 theorem false_of_eq_true_false {b : Bool} (h : b = true) (h' : b = false) : False := by
   rw [h] at h'; cases h'
 
